@@ -62,6 +62,16 @@ def gen_cases(ctx):
     for n in range(0, dmax + 1):
         for t in itertools.product(classes, repeat=n):
             cases.append(("D", b"".join(t)))
+    # decode: every byte value at every position of a quantum (all 256 table entries, also as pad/whitespace stand-ins)
+    for b in range(256):
+        for pos in range(4):
+            for base in (b"QUJD", b"QUI=", b"QQ=="):
+                q = bytearray(base)
+                q[pos] = b
+                cases.append(("D", bytes(q)))
+        cases.append(("D", b"QUJD" + bytes([b])))
+        cases.append(("D", bytes([b]) + b"QUJD"))
+        cases.append(("D", b"QUI=" + bytes([b])))
     # decode: mutations of valid encodings (mostly valid stream + malformed stream)
     for _ in range(nrand):
         n = rng.randrange(0, 40)
@@ -306,12 +316,27 @@ def armor_phase(ctx):
     an armored string whose text between the prefix and the last suffix is not well-formed base64 must be answered with
     EMUNGE_BAD_CRED, never decoded"""
     import rig, credcorr, hostile
-    try:
-        exe, orc = credcorr.build_all(ctx)
-    except RuntimeError as e:
-        ctx.violation(str(e), {"obligation": "build (armor phase)"}, found_input=False)
+    exe, err = rig.build_daemon(ctx, san="address")
+    if exe is None:
+        ctx.violation("munged does not build from /repo: " + err[-300:], {"obligation": "build (armor phase)"}, found_input=False)
         return
-    cr = credcorr.CredRig(ctx, exe, orc, tag="c19armor")
+    orc = vlib.build_oracle(ctx, "cred")
+    no_model = orc is None
+    if no_model:
+        # the model no longer compiles against the regenerated facts: the clause is still evaluated on the daemon alone
+        class _NoModel:
+            def __init__(self, ctx, exe):
+                self.d = rig.Daemon(ctx, exe, tag="c19armor")
+                self.ok = self.d.start()
+            def encode_both(self, **kw):
+                return rig.encode(self.d.sock, **kw)[0], None
+            def decode_both(self, cred):
+                return rig.decode(self.d.sock, cred)[0], None, None
+            def stop(self):
+                return self.d.stop()
+        cr = _NoModel(ctx, exe)
+    else:
+        cr = credcorr.CredRig(ctx, exe, orc, tag="c19armor")
     if not cr.ok:
         ctx.violation("daemon does not start", {"obligation": "start"}, found_input=False)
         return
@@ -347,6 +372,10 @@ def armor_phase(ctx):
         ctx.violation("sanitizer report from munged on armored strings [%s at %s]" % (kinds[0], " <- ".join("%s %s:%d" % fr for fr in frames[:3])),
                       {"obligation": "C19 decode write bound (dec_unarmor)", "sanitizer": kinds, "frames": frames,
                        "strings_hex": [s.hex() for _, s in items[:400]]})
+    if no_model and not direct:
+        ctx.violation("the credential model does not compile against the facts regenerated from /repo (cred oracle does not build); "
+                      "the armor clause evaluated directly on the daemon holds on all %d strings" % len(items),
+                      {"obligation": "build of extract/cred (CredModel over regenerated facts)"}, found_input=False)
     if direct:
         cls, s, why = direct[0]
         ctx.violation("armored string [%s] %r: %s (%d failing strings)" % (cls, s[:80], why, len(direct)),
